@@ -185,7 +185,8 @@ def path_case(g, parts):
 def from_str_case(g):
     r = g.r
     delim = r.choice(["/", "/", ".", ":"])
-    toks = [r.choice(["a", "b", "inputs", "p1", "key", "x y", "0", "1", "12", "-3", "abc", "k1"]) for _ in range(r.choice([0, 1, 2, 3, 4]))]
+    toks = [r.choice(["a", "b", "inputs", "p1", "key", "x y", "0", "1", "12", "-3", "abc", "k1", "1.5", "0.1", "2.0", "10.25", "-0.5"])
+            for _ in range(r.choice([0, 1, 2, 3, 4]))]
     toks = [t for t in toks if delim not in t]
     s = delim.join(toks)
     c = Case("from_str", {"str": s, "delim": delim})
@@ -195,16 +196,41 @@ def from_str_case(g):
     if a[0] != "ok":
         c.fail("from_str", f"from_str raised {a[1]}")
         return c
-    if s and not any(t.lstrip("+-").isdigit() for t in toks):
+    def numeric(t):
+        try:
+            float(t)
+            return True
+        except ValueError:
+            return False
+    if s and not any(numeric(t) for t in toks):
         b = DP.DataPath(*toks)
         if not (a[1] == b):
             c.fail("from_str_equal", "from_str of non-numeric tokens != DataPath(*tokens)")
     # numeric tokens select both the string key and the integer key / index
-    docs = [{"a": {"0": "s", 0: "i", "1": [10, 11]}, "1": "one", 1: "int-one", "12": 5}, ["x", {"a": 1, "b": [1, 2]}, "y"]]
+    # a numeric token matches the text key and the numeric key (and, for an integer, the list index) – and nothing else:
+    # the same selection as the explicit API path
+    def api_part(t):
+        try:
+            n = int(t)
+            return DP.MapOrListValue(key=DP.cnds.Key.in_((t, n)), index=n)
+        except ValueError:
+            pass
+        try:
+            return DP.MapValue(key=DP.cnds.Key.in_((t, float(t))))
+        except ValueError:
+            return t
+    b2 = DP.DataPath(*[api_part(t) for t in toks])
+    if toks and not (a[1] == b2):
+        c.fail("from_str_equal", "from_str path != the API path with Key.in_((text, number)) parts")
+    docs = [{"a": {"0": "s", 0: "i", "1": [10, 11], "1.5": "t", 1.5: "f"}, "1": "one", 1: "int-one", "12": 5, "1.5": ["p", "q"], 1.5: {"a": 1}},
+            ["x", {"a": 1, "b": [1, 2]}, "y"], {"a": ["l0", "l1", "l2"], "b": {"0.1": 1}}]
     for d in docs:
-        o = enc.outcome(lambda: a[1].get_data(d))
+        o = enc.outcome(lambda: enc.enc_val(a[1].get_data(d, return_paths=True)))
+        o2 = enc.outcome(lambda: enc.enc_val(b2.get_data(d, return_paths=True)))
         if o[0] != "ok":
             c.fail("from_str_resolves", f"resolving a from_str path raised {o[1]}")
+        elif o != o2:
+            c.fail("from_str_selects", f"from_str path selects {o!r:.200}, the API path {o2!r:.200}")
     c.nontrivial = bool(toks)
     c.features.add(("from_str", len(toks), delim))
     return c
